@@ -1,99 +1,495 @@
-pub assume_specification [std::string::String::with_capacity] (n: usize) -> (r: std::string::String)
-    ensures r@ == Seq::<char>::empty();
-pub assume_specification [char::is_ascii_control] (c: &char) -> (r: bool)
-    ensures r == ((*c as u32) <= 0x1f || (*c as u32) == 0x7f);
-
-// ---------------- spec: what the code's predicate is (mirror, checked by the ensures above)
-pub open spec fn needs_escaping_spec(c: char) -> bool {
-    c == '(' || c == ')' || c == '[' || c == ']' || c == '{' || c == '}' || c == '$' || c == '*' || c == '?' || c == '|' || c == '&' || c == ';'
-    || c == '<' || c == '>' || c == '`' || c == '\\' || c == '"' || c == '!' || c == '^' || c == ',' || c == ' ' || c == '\''
-}
-// ---------------- spec: POSIX XCU 2.2 / 2.3 / 2.6 + bash: characters that are NOT read back literally when they
-// appear unquoted in a word (anywhere, or at its start for '#' and '~')
+// ================= C13 quoting: reader of ONE shell word (POSIX XCU 2.2 Quoting, 2.3 Token Recognition, 2.6.1 Tilde; bash manual
+// 3.1.2.4 ANSI-C Quoting), written from those texts — NOT from brush's or bash's parser.  `None` = the text is not read back as
+// exactly one literal word.  History expansion (`!`) is off, as it is for `eval` in a script.
 pub open spec fn unquoted_special(c: char) -> bool {
     // 2.2: | & ; < > ( ) $ ` \ " ' <space> <tab> <newline>
     c == '|' || c == '&' || c == ';' || c == '<' || c == '>' || c == '(' || c == ')' || c == '$' || c == '`' || c == '\\' || c == '"' || c == '\'' || c == ' ' || c == '\t' || c == '\n'
     // 2.2 "may need to be quoted": * ? [ # ~  (pathname expansion, comment, tilde); bash: { } , ! ^ (brace and history expansion)
     || c == '*' || c == '?' || c == '[' || c == '#' || c == '~' || c == '{' || c == '}' || c == ',' || c == '!' || c == '^'
 }
-// characters that are special only as the FIRST character of a word: '#' starts a comment (2.3 rule 9), '~' a tilde-prefix (2.6.1)
+// special only as the FIRST character of a word: '#' starts a comment (2.3 rule 9), '~' a tilde-prefix (2.6.1)
 pub open spec fn special_at_start_only(c: char) -> bool { c == '#' || c == '~' }
-pub open spec fn needs_escaping_at_start_spec(c: char) -> bool { c == '#' || c == '~' }
-pub open spec fn ansi_c_spec(c: char) -> bool { (c as u32) <= 0x1f || (c as u32) == 0x7f }
-
-// C13 lemma 1 (all chars): every character the reader treats specially is flagged by the predicates `quote` consults —
-// anywhere in the word by needs_escaping / needs_ansi_c_quoting, and additionally at the start by needs_escaping_at_start
-pub proof fn lemma_special_chars_flagged(c: char)
-    requires unquoted_special(c),
-    ensures
-        !special_at_start_only(c) ==> needs_escaping_spec(c) || ansi_c_spec(c),
-        needs_escaping_spec(c) || ansi_c_spec(c) || needs_escaping_at_start_spec(c),
-{}
-
-// ---------------- spec: double-quote writer and reader
+pub open spec fn cons(c: char, r: Option<Seq<char>>) -> Option<Seq<char>> { match r { Some(v) => Some(seq![c] + v), None => None } }
+pub open spec fn cat(a: Seq<char>, r: Option<Seq<char>>) -> Option<Seq<char>> { match r { Some(v) => Some(a + v), None => None } }
+pub open spec fn cons2(c: char, r: Option<(Seq<char>, Seq<char>)>) -> Option<(Seq<char>, Seq<char>)> { match r { Some((v, rest)) => Some((seq![c] + v, rest)), None => None } }
+// 2.2.2 single quotes: everything up to the next ' is literal
+pub open spec fn sq_scan(w: Seq<char>) -> Option<(Seq<char>, Seq<char>)> decreases w.len() {
+    if w.len() == 0 { None } else if w[0] == '\'' { Some((Seq::empty(), w.skip(1))) } else { cons2(w[0], sq_scan(w.skip(1))) }
+}
+// 2.2.3 double quotes: \ keeps its meaning only before $ ` " \ <newline>; an unescaped $ or ` is not literal
 pub open spec fn dq_special(c: char) -> bool { c == '$' || c == '`' || c == '"' || c == '\\' }
-pub open spec fn dq_char(c: char) -> Seq<char> { if dq_special(c) { seq!['\\', c] } else { seq![c] } }
-pub open spec fn dq_body(s: Seq<char>) -> Seq<char> decreases s.len() {
-    if s.len() == 0 { Seq::empty() } else { dq_body(s.drop_last()) + dq_char(s.last()) }
+pub open spec fn dq_scan(w: Seq<char>) -> Option<(Seq<char>, Seq<char>)> decreases w.len() {
+    if w.len() == 0 { None }
+    else if w[0] == '"' { Some((Seq::empty(), w.skip(1))) }
+    else if w[0] == '\\' {
+        if w.len() >= 2 && dq_special(w[1]) { cons2(w[1], dq_scan(w.skip(2))) }
+        else if w.len() >= 2 && w[1] == '\n' { dq_scan(w.skip(2)) }
+        else { cons2('\\', dq_scan(w.skip(1))) }
+    }
+    else if w[0] == '$' || w[0] == '`' { None }
+    else { cons2(w[0], dq_scan(w.skip(1))) }
 }
-pub open spec fn dq_body_l(s: Seq<char>) -> Seq<char> decreases s.len() {
-    if s.len() == 0 { Seq::empty() } else { dq_char(s[0]) + dq_body_l(s.skip(1)) }
+// bash 3.1.2.4 $'...': named escapes, \nnn = one to three octal digits; \xHH \uHHHH \UHHHHHHHH \cx are not modelled (None).
+// An octal value of 0 ends the string (NUL) and one above 0x7f is a raw byte, not a character: neither reads back as a char.
+pub open spec fn is_oct(c: char) -> bool { '0' <= c && c <= '7' }
+pub open spec fn oct_val(c: char) -> int { c as int - '0' as int }
+pub open spec fn ansi_named(e: char) -> Option<char> {
+    if e == 'a' { Some('\x07') } else if e == 'b' { Some('\x08') } else if e == 'e' || e == 'E' { Some('\x1b') } else if e == 'f' { Some('\x0c') }
+    else if e == 'n' { Some('\n') } else if e == 'r' { Some('\r') } else if e == 't' { Some('\t') } else if e == 'v' { Some('\x0b') }
+    else if e == '\\' { Some('\\') } else if e == '\'' { Some('\'') } else if e == '"' { Some('"') } else if e == '?' { Some('?') } else { None }
 }
-// POSIX 2.2.3: inside double quotes `\` keeps its meaning only before $ ` " \ <newline>; an unescaped $ ` " is not literal
-pub open spec fn dq_read(w: Seq<char>) -> Option<Seq<char>> decreases w.len() {
+pub open spec fn oct_len(w: Seq<char>) -> int {    // how many of the first (at most 3) chars are octal digits
+    if w.len() >= 1 && is_oct(w[0]) { if w.len() >= 2 && is_oct(w[1]) { if w.len() >= 3 && is_oct(w[2]) { 3 } else { 2 } } else { 1 } } else { 0 }
+}
+pub open spec fn oct_value(w: Seq<char>, n: int) -> int {
+    if n == 1 { oct_val(w[0]) } else if n == 2 { oct_val(w[0]) * 8 + oct_val(w[1]) } else { oct_val(w[0]) * 64 + oct_val(w[1]) * 8 + oct_val(w[2]) }
+}
+pub open spec fn ansi_scan(w: Seq<char>) -> Option<(Seq<char>, Seq<char>)> decreases w.len() {
+    if w.len() == 0 { None }
+    else if w[0] == '\'' { Some((Seq::empty(), w.skip(1))) }
+    else if w[0] == '\\' {
+        if w.len() < 2 { None }
+        else if ansi_named(w[1]) is Some { cons2(ansi_named(w[1])->Some_0, ansi_scan(w.skip(2))) }
+        else if is_oct(w[1]) {
+            let n = oct_len(w.skip(1));
+            let v = oct_value(w.skip(1), n);
+            if 0 < v && v < 0x80 { cons2(v as char, ansi_scan(w.skip(1 + n))) } else { None }
+        }
+        else { None }
+    }
+    else { cons2(w[0], ansi_scan(w.skip(1))) }
+}
+// 2.2/2.3: one word, read left to right
+pub open spec fn read_unq(w: Seq<char>, at_start: bool) -> Option<Seq<char>> decreases w.len() {
     if w.len() == 0 { Some(Seq::empty()) }
     else if w[0] == '\\' {
-        if w.len() >= 2 && (dq_special(w[1]) ) { match dq_read(w.skip(2)) { Some(r) => Some(seq![w[1]] + r), None => None } }
-        else if w.len() >= 2 && w[1] == '\n' { dq_read(w.skip(2)) }
-        else { match dq_read(w.skip(1)) { Some(r) => Some(seq!['\\'] + r), None => None } }
+        if w.len() < 2 { None }                                     // a trailing backslash does not form a complete word
+        else if w[1] == '\n' { read_unq(w.skip(2), at_start) }       // 2.2.1 line continuation: both characters are removed
+        else { cons(w[1], read_unq(w.skip(2), false)) }
     }
-    else if w[0] == '"' || w[0] == '$' || w[0] == '`' { None }
-    else { match dq_read(w.skip(1)) { Some(r) => Some(seq![w[0]] + r), None => None } }
+    else if w[0] == '\'' {
+        match sq_scan(w.skip(1)) { Some((v, rest)) => if rest.len() < w.len() { cat(v, read_unq(rest, false)) } else { None }, None => None }
+    }
+    else if w[0] == '"' {
+        match dq_scan(w.skip(1)) { Some((v, rest)) => if rest.len() < w.len() { cat(v, read_unq(rest, false)) } else { None }, None => None }
+    }
+    else if w[0] == '$' && w.len() >= 2 && w[1] == '\'' {
+        match ansi_scan(w.skip(2)) { Some((v, rest)) => if rest.len() < w.len() { cat(v, read_unq(rest, false)) } else { None }, None => None }
+    }
+    else if unquoted_special(w[0]) && (!special_at_start_only(w[0]) || at_start) { None }
+    else { cons(w[0], read_unq(w.skip(1), false)) }
 }
+// the text `w`, given to the shell as (part of) a command line, is exactly one word whose value is v
+pub open spec fn reads_as(w: Seq<char>, v: Seq<char>) -> bool { w.len() > 0 && read_unq(w, true) == Some(v) }
 
-proof fn lemma_dq_body_concat(a: Seq<char>, b: Seq<char>)
-    ensures dq_body(a + b) =~= dq_body(a) + dq_body(b)
-    decreases b.len()
+// ================= writers as "one piece per element" concatenations, and the round trip of each against the reader
+pub open spec fn flat_rb<A>(s: Seq<A>, f: spec_fn(int, A) -> Seq<char>, base: int) -> Seq<char> decreases s.len() {
+    if s.len() == 0 { Seq::empty() } else { flat_rb(s.drop_last(), f, base) + f(base + s.len() - 1, s.last()) }
+}
+pub open spec fn flat_r<A>(s: Seq<A>, f: spec_fn(int, A) -> Seq<char>) -> Seq<char> { flat_rb(s, f, 0) }
+pub open spec fn flat_l<A>(s: Seq<A>, f: spec_fn(int, A) -> Seq<char>, base: int) -> Seq<char> decreases s.len() {
+    if s.len() == 0 { Seq::empty() } else { f(base, s[0]) + flat_l(s.skip(1), f, base + 1) }
+}
+pub proof fn lemma_flat_lr<A>(s: Seq<A>, f: spec_fn(int, A) -> Seq<char>, base: int)
+    ensures flat_rb(s, f, base) =~= flat_l(s, f, base)
+    decreases s.len()
 {
-    if b.len() == 0 { assert(a + b =~= a); }
-    else {
-        assert((a + b).drop_last() =~= a + b.drop_last());
-        lemma_dq_body_concat(a, b.drop_last());
+    if s.len() == 0 {
+    } else if s.len() == 1 {
+        assert(s.drop_last().len() == 0);
+        assert(s.skip(1).len() == 0);
+        assert(flat_rb(s.drop_last(), f, base) =~= Seq::<char>::empty());
+        assert(flat_l(s.skip(1), f, base + 1) =~= Seq::<char>::empty());
+        assert(s.last() == s[0]);
+    } else {
+        lemma_flat_lr(s.drop_last(), f, base);
+        lemma_flat_lr(s.skip(1), f, base + 1);
+        lemma_flat_lr(s.drop_last().skip(1), f, base + 1);
+        assert(s.drop_last().skip(1) =~= s.skip(1).drop_last());
+        assert(s.drop_last()[0] == s[0]);
+        assert(s.skip(1).last() == s.last());
+        // flat_rb(s) = flat_rb(dl) + f(last) = flat_l(dl) + f(last) = f(s0) + flat_l(dl.skip1, b+1) + f(last)
+        // flat_l(s)  = f(s0) + flat_l(sk1, b+1) = f(s0) + flat_rb(sk1, b+1) = f(s0) + flat_rb(sk1.dl, b+1) + f(b+1+len-2, last)
+        assert(flat_rb(s.skip(1), f, base + 1) =~= flat_rb(s.skip(1).drop_last(), f, base + 1) + f(base + 1 + s.skip(1).len() - 1, s.skip(1).last()));
     }
 }
-proof fn lemma_dq_body_lr(s: Seq<char>) ensures dq_body(s) =~= dq_body_l(s) decreases s.len()
+// ---- double quotes
+pub open spec fn dq_piece() -> spec_fn(int, char) -> Seq<char> { |i: int, c: char| if dq_special(c) { seq!['\\', c] } else { seq![c] } }
+pub proof fn lemma_dq_scan(s: Seq<char>, base: int)
+    ensures dq_scan(flat_l(s, dq_piece(), base) + seq!['"']) == Some((s, Seq::<char>::empty()))
+    decreases s.len()
 {
-    if s.len() > 0 {
-        lemma_dq_body_lr(s.skip(1));
-        assert(s =~= seq![s[0]] + s.skip(1));
-        lemma_dq_body_concat(seq![s[0]], s.skip(1));
-        assert(seq![s[0]].drop_last() =~= Seq::<char>::empty());
-        assert(dq_body(Seq::<char>::empty()) =~= Seq::<char>::empty());
-        assert(seq![s[0]].last() == s[0]);
-        assert(dq_body(seq![s[0]]) =~= dq_body(seq![s[0]].drop_last()) + dq_char(s[0]));
-        assert(dq_body(seq![s[0]]) =~= dq_char(s[0]));
-    }
-}
-// C13 lemma 2: the reader maps the writer's output back to the value, for every string
-pub proof fn lemma_dq_roundtrip(v: Seq<char>) ensures dq_read(dq_body(v)) == Some(v) decreases v.len()
-{
-    lemma_dq_body_lr(v);
-    lemma_dq_roundtrip_l(v);
-}
-proof fn lemma_dq_roundtrip_l(v: Seq<char>) ensures dq_read(dq_body_l(v)) == Some(v) decreases v.len()
-{
-    if v.len() > 0 {
-        lemma_dq_roundtrip_l(v.skip(1));
-        let w = dq_body_l(v);
-        let rest = dq_body_l(v.skip(1));
-        if dq_special(v[0]) {
-            assert(w =~= seq!['\\', v[0]] + rest);
+    let w = flat_l(s, dq_piece(), base) + seq!['"'];
+    if s.len() == 0 {
+        assert(w =~= seq!['"']);
+        assert(w.skip(1) =~= Seq::<char>::empty());
+    } else {
+        lemma_dq_scan(s.skip(1), base + 1);
+        let rest = flat_l(s.skip(1), dq_piece(), base + 1) + seq!['"'];
+        let c = s[0];
+        if dq_special(c) {
+            assert(w =~= seq!['\\', c] + rest);
             assert(w.skip(2) =~= rest);
         } else {
-            assert(w =~= seq![v[0]] + rest);
+            assert(w =~= seq![c] + rest);
             assert(w.skip(1) =~= rest);
         }
-        assert(seq![v[0]] + v.skip(1) =~= v);
+        assert(seq![c] + s.skip(1) =~= s);
+    }
+}
+pub proof fn lemma_dq_word(s: Seq<char>)
+    ensures reads_as(seq!['"'] + flat_r(s, dq_piece()) + seq!['"'], s)
+{
+    lemma_flat_lr(s, dq_piece(), 0);
+    lemma_dq_scan(s, 0);
+    let w = seq!['"'] + flat_r(s, dq_piece()) + seq!['"'];
+    assert(w.skip(1) =~= flat_l(s, dq_piece(), 0) + seq!['"']);
+    assert(s + Seq::<char>::empty() =~= s);
+    assert(w[0] == '"');
+    assert(read_unq(Seq::<char>::empty(), false) == Some(Seq::<char>::empty()));
+}
+// ---- backslash escaping: `esc(i, c)` says whether element i is written with a backslash
+pub open spec fn bs_piece(esc: spec_fn(int, char) -> bool) -> spec_fn(int, char) -> Seq<char> { |i: int, c: char| if esc(i, c) { seq!['\\', c] } else { seq![c] } }
+pub open spec fn bs_ok(s: Seq<char>, esc: spec_fn(int, char) -> bool, base: int) -> bool {
+    forall|i: int| 0 <= i < s.len() ==> {
+        let c = #[trigger] s[i];
+        &&& esc(base + i, c) ==> c != '\n'
+        &&& !esc(base + i, c) ==> (!unquoted_special(c) || (special_at_start_only(c) && base + i != 0))
+    }
+}
+pub proof fn lemma_bs_read(s: Seq<char>, esc: spec_fn(int, char) -> bool, base: int)
+    requires bs_ok(s, esc, base), base >= 0,
+    ensures read_unq(flat_l(s, bs_piece(esc), base), base == 0) == Some(s)
+    decreases s.len()
+{
+    let w = flat_l(s, bs_piece(esc), base);
+    if s.len() == 0 {
+    } else {
+        let c = s[0];
+        assert(s[0] == c);
+        assert forall|i: int| 0 <= i < s.skip(1).len() implies ({
+            let d = #[trigger] s.skip(1)[i];
+            &&& esc(base + 1 + i, d) ==> d != '\n'
+            &&& !esc(base + 1 + i, d) ==> (!unquoted_special(d) || (special_at_start_only(d) && base + 1 + i != 0))
+        }) by { assert(s.skip(1)[i] == s[i + 1]); }
+        lemma_bs_read(s.skip(1), esc, base + 1);
+        let rest = flat_l(s.skip(1), bs_piece(esc), base + 1);
+        if esc(base, c) {
+            assert(w =~= seq!['\\', c] + rest);
+            assert(w.skip(2) =~= rest);
+        } else {
+            assert(w =~= seq![c] + rest);
+            assert(w.skip(1) =~= rest);
+        }
+        assert(seq![c] + s.skip(1) =~= s);
+    }
+}
+// an unescaped text is the special case "nothing escaped"
+pub proof fn lemma_raw_read(s: Seq<char>)
+    requires bs_ok(s, |i: int, c: char| false, 0),
+    ensures read_unq(s, true) == Some(s)
+{
+    let esc = |i: int, c: char| false;
+    lemma_bs_read(s, esc, 0);
+    lemma_flat_id(s, esc, 0);
+}
+pub proof fn lemma_flat_id(s: Seq<char>, esc: spec_fn(int, char) -> bool, base: int)
+    requires forall|i: int, c: char| !(#[trigger] esc(i, c)),
+    ensures flat_l(s, bs_piece(esc), base) =~= s
+    decreases s.len()
+{
+    if s.len() > 0 { lemma_flat_id(s.skip(1), esc, base + 1); assert(seq![s[0]] + s.skip(1) =~= s); }
+}
+
+// ---- ANSI-C quoting.  `flag(c)`: the writer's "needs an octal escape" predicate (the code's needs_ansi_c_quoting)
+pub open spec fn oct_digit(k: int) -> char { ('0' as int + k) as char }
+pub open spec fn oct3(v: int) -> Seq<char> { seq!['\\', oct_digit(v / 64), oct_digit((v / 8) % 8), oct_digit(v % 8)] }
+pub open spec fn ansi_piece(flag: spec_fn(char) -> bool) -> spec_fn(int, char) -> Seq<char> {
+    |i: int, c: char|
+        if c == '\x07' { seq!['\\', 'a'] } else if c == '\x08' { seq!['\\', 'b'] } else if c == '\x1b' { seq!['\\', 'E'] } else if c == '\x0c' { seq!['\\', 'f'] }
+        else if c == '\n' { seq!['\\', 'n'] } else if c == '\r' { seq!['\\', 'r'] } else if c == '\t' { seq!['\\', 't'] } else if c == '\x0b' { seq!['\\', 'v'] }
+        else if c == '\\' { seq!['\\', '\\'] } else if c == '\'' { seq!['\\', '\''] }
+        else if flag(c) { oct3((c as u8) as int) }
+        else { seq![c] }
+}
+// what the round trip needs of the flag: a flagged character is written as the octal of `c as u8`, so it must be below 0x80 (else
+// the escape denotes a byte, not that character) and not NUL
+pub open spec fn ansi_flag_ok(flag: spec_fn(char) -> bool) -> bool { forall|c: char| #[trigger] flag(c) ==> (c as u32) < 0x80 }
+pub proof fn lemma_oct3(v: int)
+    requires 0 < v < 0x80,
+    ensures ({ let w = oct3(v); oct_len(w.skip(1)) == 3 && oct_value(w.skip(1), 3) == v }),
+{
+    let w = oct3(v);
+    let t = w.skip(1);
+    assert(t.len() == 3);
+    assert(t[0] == oct_digit(v / 64) && t[1] == oct_digit((v / 8) % 8) && t[2] == oct_digit(v % 8));
+    assert(0 <= v / 64 <= 1 && 0 <= (v / 8) % 8 <= 7 && 0 <= v % 8 <= 7);
+    assert(is_oct(t[0]) && is_oct(t[1]) && is_oct(t[2]));
+    assert(oct_val(t[0]) == v / 64 && oct_val(t[1]) == (v / 8) % 8 && oct_val(t[2]) == v % 8);
+    assert((v / 64) * 64 + ((v / 8) % 8) * 8 + v % 8 == v);
+}
+pub proof fn lemma_ansi_scan(s: Seq<char>, flag: spec_fn(char) -> bool, base: int)
+    requires ansi_flag_ok(flag), forall|i: int| 0 <= i < s.len() ==> s[i] != '\0',
+    ensures ansi_scan(flat_l(s, ansi_piece(flag), base) + seq!['\'']) == Some((s, Seq::<char>::empty()))
+    decreases s.len()
+{
+    let f = ansi_piece(flag);
+    let w = flat_l(s, f, base) + seq!['\''];
+    if s.len() == 0 {
+        assert(w =~= seq!['\'']);
+        assert(w.skip(1) =~= Seq::<char>::empty());
+    } else {
+        assert forall|i: int| 0 <= i < s.skip(1).len() implies s.skip(1)[i] != '\0' by { assert(s.skip(1)[i] == s[i + 1]); }
+        lemma_ansi_scan(s.skip(1), flag, base + 1);
+        let rest = flat_l(s.skip(1), f, base + 1) + seq!['\''];
+        let c = s[0];
+        let p = f(base, c);
+        assert(w =~= p + rest);
+        assert(seq![c] + s.skip(1) =~= s);
+        if c == '\x07' || c == '\x08' || c == '\x1b' || c == '\x0c' || c == '\n' || c == '\r' || c == '\t' || c == '\x0b' || c == '\\' || c == '\'' {
+            assert(p.len() == 2 && p[0] == '\\');
+            assert(w[0] == '\\' && w[1] == p[1]);
+            assert(ansi_named(p[1]) == Some(c));
+            assert(w.skip(2) =~= rest);
+        } else if flag(c) {
+            let v = (c as u8) as int;
+            assert((c as u32) < 0x80 && c != '\0');
+            assert(0 < (c as u32));
+            assert(v == c as u32);
+            lemma_oct3(v);
+            assert(p =~= oct3(v));
+            assert(w.skip(1).len() >= 3);
+            assert(w.skip(1)[0] == p[1] && w.skip(1)[1] == p[2] && w.skip(1)[2] == p[3]);
+            assert(oct3(v).skip(1)[0] == p[1] && oct3(v).skip(1)[1] == p[2] && oct3(v).skip(1)[2] == p[3]);
+            assert(w[0] == '\\' && w[1] == p[1] && is_oct(w[1]));
+            assert(ansi_named(w[1]) is None);
+            assert(oct_len(w.skip(1)) == 3);
+            assert(oct_value(w.skip(1), 3) == v);
+            assert(w.skip(4) =~= rest);
+            assert((v as char) == c);
+        } else {
+            assert(p =~= seq![c]);
+            assert(w[0] == c);
+            assert(w.skip(1) =~= rest);
+        }
+    }
+}
+pub proof fn lemma_ansi_word(s: Seq<char>, flag: spec_fn(char) -> bool)
+    requires ansi_flag_ok(flag), forall|i: int| 0 <= i < s.len() ==> s[i] != '\0',
+    ensures reads_as(seq!['$', '\''] + flat_r(s, ansi_piece(flag)) + seq!['\''], s)
+{
+    lemma_flat_lr(s, ansi_piece(flag), 0);
+    lemma_ansi_scan(s, flag, 0);
+    let w = seq!['$', '\''] + flat_r(s, ansi_piece(flag)) + seq!['\''];
+    assert(w.skip(2) =~= flat_l(s, ansi_piece(flag), 0) + seq!['\'']);
+    assert(s + Seq::<char>::empty() =~= s);
+    assert(w[0] == '$' && w[1] == '\'');
+    assert(read_unq(Seq::<char>::empty(), false) == Some(Seq::<char>::empty()));
+}
+// ---- single quotes: the value is cut at every ' ; piece i is (i > 0 ? \' : nothing) followed by ('part' unless the part is empty)
+pub open spec fn split_char(s: Seq<char>, sep: char) -> Seq<Seq<char>> decreases s.len() {
+    if s.len() == 0 { seq![Seq::<char>::empty()] }
+    else if s.last() == sep { split_char(s.drop_last(), sep).push(Seq::empty()) }
+    else { let p = split_char(s.drop_last(), sep); p.update(p.len() - 1, p.last().push(s.last())) }
+}
+pub open spec fn sq_piece() -> spec_fn(int, Seq<char>) -> Seq<char> {
+    |i: int, part: Seq<char>| (if i > 0 { seq!['\\', '\''] } else { Seq::<char>::empty() }) + (if part.len() > 0 { seq!['\''] + part + seq!['\''] } else { Seq::<char>::empty() })
+}
+pub open spec fn sq_val() -> spec_fn(int, Seq<char>) -> Seq<char> {
+    |i: int, part: Seq<char>| (if i > 0 { seq!['\''] } else { Seq::<char>::empty() }) + part
+}
+pub open spec fn no_sq(parts: Seq<Seq<char>>) -> bool { forall|i: int, j: int| 0 <= i < parts.len() && 0 <= j < parts[i].len() ==> parts[i][j] != '\'' }
+pub proof fn lemma_split(s: Seq<char>)
+    ensures ({ let p = split_char(s, '\''); p.len() >= 1 && no_sq(p) && flat_rb(p, sq_val(), 0) =~= s }),
+    decreases s.len()
+{
+    let p = split_char(s, '\'');
+    if s.len() == 0 {
+        assert(p.drop_last().len() == 0);
+        assert(flat_rb(p.drop_last(), sq_val(), 0) =~= Seq::<char>::empty());
+    } else {
+        lemma_split(s.drop_last());
+        let q = split_char(s.drop_last(), '\'');
+        if s.last() == '\'' {
+            assert(p.drop_last() =~= q);
+            assert(s =~= s.drop_last() + seq!['\'']);
+        } else {
+            assert(p.drop_last() =~= q.drop_last());
+            assert(p.last() =~= q.last().push(s.last()));
+            assert(s =~= s.drop_last() + seq![s.last()]);
+            assert(flat_rb(q, sq_val(), 0) =~= flat_rb(q.drop_last(), sq_val(), 0) + sq_val()(q.len() - 1, q.last()));
+            assert forall|i: int, j: int| 0 <= i < p.len() && 0 <= j < p[i].len() implies p[i][j] != '\'' by {
+                if i < p.len() - 1 { assert(p[i] == q[i]); } else { if j < q.last().len() { assert(p[i][j] == q.last()[j]); } }
+            }
+        }
+    }
+}
+pub proof fn lemma_sq_scan(part: Seq<char>, tail: Seq<char>)
+    requires forall|j: int| 0 <= j < part.len() ==> part[j] != '\'',
+    ensures sq_scan(part + seq!['\''] + tail) == Some((part, tail))
+    decreases part.len()
+{
+    let w = part + seq!['\''] + tail;
+    if part.len() == 0 {
+        assert(w[0] == '\'');
+        assert(w.skip(1) =~= tail);
+    } else {
+        lemma_sq_scan(part.skip(1), tail);
+        assert(w[0] == part[0]);
+        assert(w.skip(1) =~= part.skip(1) + seq!['\''] + tail);
+        assert(seq![part[0]] + part.skip(1) =~= part);
+    }
+}
+pub proof fn lemma_sq_read(parts: Seq<Seq<char>>, base: int, at: bool)
+    requires no_sq(parts), base >= 0,
+    ensures read_unq(flat_l(parts, sq_piece(), base), at) == Some(flat_l(parts, sq_val(), base))
+    decreases parts.len()
+{
+    if parts.len() > 0 {
+        let rest = flat_l(parts.skip(1), sq_piece(), base + 1);
+        let restv = flat_l(parts.skip(1), sq_val(), base + 1);
+        assert forall|i: int, j: int| 0 <= i < parts.skip(1).len() && 0 <= j < parts.skip(1)[i].len() implies parts.skip(1)[i][j] != '\'' by { assert(parts.skip(1)[i] == parts[i + 1]); }
+        lemma_sq_read(parts.skip(1), base + 1, false);
+        lemma_sq_read(parts.skip(1), base + 1, at);
+        let part = parts[0];
+        let w = flat_l(parts, sq_piece(), base);
+        assert(w =~= sq_piece()(base, part) + rest);
+        // after the optional \' : the quoted part (if any), then the rest
+        let w1 = (if part.len() > 0 { seq!['\''] + part + seq!['\''] } else { Seq::<char>::empty() }) + rest;
+        assert(read_unq(w1, false) == Some(part + restv) && (base == 0 ==> read_unq(w1, at) == Some(part + restv))) by {
+            if part.len() > 0 {
+                assert(w1 =~= seq!['\''] + (part + seq!['\''] + rest));
+                assert(w1[0] == '\'');
+                assert(w1.skip(1) =~= part + seq!['\''] + rest);
+                assert forall|j: int| 0 <= j < part.len() implies part[j] != '\'' by { assert(parts[0][j] != '\''); }
+                lemma_sq_scan(part, rest);
+            } else {
+                assert(w1 =~= rest);
+                assert(part + restv =~= restv);
+            }
+        }
+        if base > 0 {
+            assert(w =~= seq!['\\', '\''] + w1);
+            assert(w[0] == '\\' && w[1] == '\'');
+            assert(w.skip(2) =~= w1);
+            assert(flat_l(parts, sq_val(), base) =~= seq!['\''] + (part + restv));
+        } else {
+            assert(w =~= w1);
+            assert(flat_l(parts, sq_val(), base) =~= part + restv);
+        }
+    }
+}
+pub proof fn lemma_sq_word(s: Seq<char>)
+    requires s.len() > 0,
+    ensures reads_as(flat_r(split_char(s, '\''), sq_piece()), s)
+{
+    let p = split_char(s, '\'');
+    lemma_split(s);
+    lemma_flat_lr(p, sq_piece(), 0);
+    lemma_flat_lr(p, sq_val(), 0);
+    lemma_sq_read(p, 0, true);
+    // non-empty output: some part is non-empty or there are at least two parts
+    lemma_sq_nonempty(p);
+}
+pub proof fn lemma_sq_nonempty(p: Seq<Seq<char>>)
+    requires p.len() >= 1, flat_rb(p, sq_val(), 0).len() > 0,
+    ensures flat_rb(p, sq_piece(), 0).len() > 0
+    decreases p.len()
+{
+    if p.len() == 1 {
+        assert(p.drop_last().len() == 0);
+        assert(flat_rb(p.drop_last(), sq_val(), 0) =~= Seq::<char>::empty());
+        assert(flat_rb(p.drop_last(), sq_piece(), 0) =~= Seq::<char>::empty());
+    } else {
+        assert(sq_piece()(p.len() - 1, p.last()).len() >= 2);
     }
 }
 
+// ---- std specs (ASSUMED)
+pub assume_specification [std::string::String::with_capacity] (n: usize) -> (r: std::string::String)
+    ensures r@ == Seq::<char>::empty();
+pub assume_specification [char::is_ascii_control] (c: &char) -> (r: bool)
+    ensures r == char_is_ascii_control_spec(*c);
+pub open spec fn char_is_ascii_control_spec(c: char) -> bool { (c as u32) <= 0x1f || (c as u32) == 0x7f }
+// ---- R14 stubs
+#[verifier::external_body]
+pub fn str_any<F: Fn(char) -> bool>(s: &str, f: F) -> (r: bool)
+    requires forall|c: char| f.requires((c,)),
+    ensures r ==> exists|i: int| 0 <= i < s@.len() && f.ensures((#[trigger] s@[i],), true),
+        !r ==> forall|i: int| 0 <= i < s@.len() ==> f.ensures((#[trigger] s@[i],), false),
+{ unimplemented!() }
+#[verifier::external_body]
+pub fn str_first_is<F: Fn(char) -> bool>(s: &str, f: F) -> (r: bool)
+    requires forall|c: char| f.requires((c,)),
+    ensures r ==> s@.len() > 0 && f.ensures((s@[0],), true),
+        !r ==> s@.len() == 0 || f.ensures((s@[0],), false),
+{ unimplemented!() }
+#[verifier::external_body]
+pub fn str_split_char<'a>(s: &'a str, sep: char) -> (r: Vec<&'a str>)
+    ensures r@.len() == split_char(s@, sep).len(), forall|i: int| 0 <= i < r@.len() ==> (#[trigger] r@[i])@ == split_char(s@, sep)[i],
+{ unimplemented!() }
+#[verifier::external_body]
+pub fn vx_fmt_backslash_octal3(b: u8) -> (r: String) ensures r@ == oct3(b as int) { unimplemented!() }
+pub trait VxOwned { spec fn vx_view(&self) -> Seq<char>; fn vx_owned(self) -> (r: String) ensures r@ == self.vx_view(); }
+impl VxOwned for String { open spec fn vx_view(&self) -> Seq<char> { self@ } #[verifier::external_body] fn vx_owned(self) -> (r: String) { self } }
+impl<'a> VxOwned for &'a str { open spec fn vx_view(&self) -> Seq<char> { self@ } #[verifier::external_body] fn vx_owned(self) -> (r: String) { self.to_string() } }
+
+
+pub open spec fn char_is_control_spec(c: char) -> bool { (c as u32) <= 0x1f || (0x7f <= (c as u32) <= 0x9f) }   // Unicode general category Cc
+pub assume_specification [char::is_control] (c: char) -> (r: bool)
+    ensures r == char_is_control_spec(c);
+pub open spec fn esc_fn() -> spec_fn(int, char) -> bool { |i: int, c: char| needs_escaping__twin(c) || (i == 0 && needs_escaping_at_start__twin(c)) }
+pub open spec fn flag_fn() -> spec_fn(char) -> bool { |c: char| needs_ansi_c_quoting__twin(c) }
+pub open spec fn no_nul(s: Seq<char>) -> bool { forall|i: int| 0 <= i < s.len() ==> s[i] != '\0' }
+
+pub proof fn lemma_nothing_escaped(s: Seq<char>)
+    requires forall|i: int| 0 <= i < s.len() ==> !needs_escaping__twin(#[trigger] s[i]), s.len() == 0 || !needs_escaping_at_start__twin(s[0]),
+    ensures flat_r(s, bs_piece(esc_fn())) =~= s
+{
+    lemma_flat_lr(s, bs_piece(esc_fn()), 0);
+    lemma_flat_id2(s, 0);
+}
+
+pub proof fn lemma_flat_id2(s: Seq<char>, base: int)
+    requires forall|i: int| 0 <= i < s.len() ==> !esc_fn()(base + i, #[trigger] s[i]),
+    ensures flat_l(s, bs_piece(esc_fn()), base) =~= s
+    decreases s.len()
+{
+    if s.len() > 0 {
+        assert forall|i: int| 0 <= i < s.skip(1).len() implies !esc_fn()(base + 1 + i, #[trigger] s.skip(1)[i]) by { assert(s.skip(1)[i] == s[i + 1]); }
+        lemma_flat_id2(s.skip(1), base + 1); assert(seq![s[0]] + s.skip(1) =~= s); assert(!esc_fn()(base + 0, s[0])); }
+}
+
+pub proof fn lemma_empty_word() ensures reads_as(seq!['\'', '\''], Seq::<char>::empty())
+{
+    let w = seq!['\'', '\''];
+    assert(w.skip(1) =~= seq!['\'']);
+    assert(w.skip(1).skip(1) =~= Seq::<char>::empty());
+    assert(sq_scan(w.skip(1)) == Some((Seq::<char>::empty(), Seq::<char>::empty())));
+    assert(read_unq(Seq::<char>::empty(), false) == Some(Seq::<char>::empty()));
+    assert(Seq::<char>::empty() + Seq::<char>::empty() =~= Seq::<char>::empty());
+}
+
+pub proof fn lemma_predicates_cover(s: Seq<char>)
+    ensures
+        //@ spec:lemma_predicates_cover:ensures#0 | C13 what-the-escaping-predicates-leave-alone-is-literal
+        (forall|i: int| 0 <= i < s.len() ==> !needs_ansi_c_quoting__twin(#[trigger] s[i])) ==> bs_ok(s, esc_fn(), 0),
+        //@ spec:lemma_predicates_cover:ensures#1 | C13 unquoted-text-has-no-special-character
+        (forall|i: int| 0 <= i < s.len() ==> !needs_ansi_c_quoting__twin(#[trigger] s[i]) && !needs_escaping__twin(s[i])) && (s.len() == 0 || !needs_escaping_at_start__twin(s[0]))
+            ==> bs_ok(s, |i: int, c: char| false, 0),
+        //@ spec:lemma_predicates_cover:ensures#2 | C13 octal-escapes-are-written-only-for-characters-below-0x80
+        ansi_flag_ok(flag_fn()),
+{
+}
+
+pub proof fn lemma_bs_word(s: Seq<char>)
+    requires s.len() > 0, bs_ok(s, esc_fn(), 0),
+    ensures reads_as(flat_r(s, bs_piece(esc_fn())), s)
+{
+    lemma_flat_lr(s, bs_piece(esc_fn()), 0);
+    lemma_bs_read(s, esc_fn(), 0);
+    assert(flat_l(s, bs_piece(esc_fn()), 0).len() > 0) by { assert(bs_piece(esc_fn())(0, s[0]).len() > 0); }
+}
+
+// a Rust string has at most isize::MAX bytes, hence at most that many chars (ASSUMED; needed for the R12 counter of `enumerate`)
+pub axiom fn axiom_str_chars_fit_usize(s: &str) ensures s@.len() <= isize::MAX;
